@@ -208,6 +208,23 @@ func cloneFrames(fs []FrameM) []FrameM {
 	return out
 }
 
+// argLists lists an argument list and all aggregates nested in it (depth <= 4 so that wrapping
+// stays within the runtime's nesting limit).
+func argLists(a *ArgListM) []*ArgListM {
+	out := []*ArgListM{a}
+	var walk func(l *ArgListM, depth int)
+	walk = func(l *ArgListM, depth int) {
+		for i := range l.Items {
+			if l.Items[i].Agg != nil && depth < 3 {
+				out = append(out, l.Items[i].Agg)
+				walk(l.Items[i].Agg, depth+1)
+			}
+		}
+	}
+	walk(a, 0)
+	return out
+}
+
 // scalarSlots lists pointers to all scalar (non '_') argument words of the frames.
 func scalarSlots(fs []FrameM) []*ArgM {
 	var out []*ArgM
@@ -302,7 +319,33 @@ func genG(t *rapid.T, p *pools, o DumpOpts, id int) GM {
 		// Perturbations: zero or more single-attribute changes relative to the pooled stack.
 		np := rapid.IntRange(0, 2).Draw(t, "perturb")
 		for k := 0; k < np; k++ {
-			switch rapid.IntRange(0, 4).Draw(t, "perturbKind") {
+			switch rapid.IntRange(0, 6).Draw(t, "perturbKind") {
+			case 5, 6:
+				// change the shape of one argument list: drop or add a field of an
+				// aggregate, or wrap a scalar into an aggregate
+				f := &g.Frames[rapid.IntRange(0, len(g.Frames)-1).Draw(t, "shapeFrame")]
+				lists := argLists(&f.Args)
+				l := lists[rapid.IntRange(0, len(lists)-1).Draw(t, "shapeList")]
+				switch rapid.IntRange(0, 3).Draw(t, "shapeOp") {
+				case 0:
+					if len(l.Items) > 0 {
+						l.Items = l.Items[:len(l.Items)-1]
+					}
+				case 1:
+					l.Items = append(l.Items, ArgM{Val: genVal(t, p)})
+				case 2:
+					if len(l.Items) > 0 {
+						k := rapid.IntRange(0, len(l.Items)-1).Draw(t, "wrapAt")
+						if l.Items[k].Agg == nil {
+							inner := l.Items[k]
+							l.Items[k] = ArgM{Agg: &ArgListM{Items: []ArgM{inner}}}
+						} else if len(l.Items[k].Agg.Items) > 0 && l.Items[k].Agg.Items[0].Agg == nil {
+							l.Items[k] = l.Items[k].Agg.Items[0]
+						}
+					}
+				case 3:
+					l.Dots = !l.Dots
+				}
 			case 0, 1, 2:
 				if sl := scalarSlots(g.Frames); len(sl) > 0 {
 					s := sl[rapid.IntRange(0, len(sl)-1).Draw(t, "slot")]
